@@ -6,6 +6,7 @@
     recording user functions and symbolic variable values: the logged arguments must have the stated shape.
 (3) Dispatch: Operator::eval(FunctionIdentifier{n}, [v], ctx) for every builtin name and a non-builtin name in every context configuration:
     user function wins; builtin iff no user function and not disabled; else FunctionIdentifierNotFound(n); a variable named n is irrelevant."""
+import zlib
 import sys, os, time, random, itertools, re
 import z3
 sys.path.insert(0, os.path.dirname(os.path.dirname(os.path.abspath(__file__))))
@@ -19,6 +20,7 @@ import c10
 from c12 import equal_term
 
 PID = 'C09'
+CVC5_RATE = [0.01]
 PAYLOAD_FREE = ['Plus', 'Minus', 'Star', 'Slash', 'Percent', 'Hat', 'Eq', 'Neq', 'Gt', 'Lt', 'Geq', 'Leq', 'And', 'Or', 'Not', 'LBrace', 'RBrace',
                 'Assign', 'PlusAssign', 'MinusAssign', 'StarAssign', 'SlashAssign', 'PercentAssign', 'HatAssign', 'AndAssign', 'OrAssign', 'Comma', 'Semicolon']
 ASSIGN_TOKS = ['Assign', 'PlusAssign', 'MinusAssign', 'StarAssign', 'SlashAssign', 'PercentAssign', 'HatAssign', 'AndAssign', 'OrAssign']
@@ -47,7 +49,7 @@ def unit(u, res):
     kind = u[0]
     C = ctx()
     timeout_ms = u[-2]
-    pr = checklib.Prover(res, timeout_ms)
+    pr = checklib.Prover(res, timeout_ms, CVC5_RATE[0], random.Random(zlib.crc32(repr(u).encode()) ^ checklib.env_seed()))
     meta = C.meta
     if kind == 'classify':
         _, nxt, timeout_ms, seed = u
@@ -288,6 +290,7 @@ def main():
     t0 = time.time()
     tier = checklib.env_tier()
     seed = checklib.env_seed()
+    CVC5_RATE[0] = 0.01 if tier == 'quick' else 0.1
     timeout_ms = 60000 if tier == 'quick' else 600000
     frontend.load(overflow_checks=True)
     units = []
